@@ -266,13 +266,14 @@ _PKG_CACHE = {}
 
 
 def sym_package(env_extra=None, block=2, key='default'):
-    ck = (key, block)
+    bk = tuple(sorted(block.items())) if isinstance(block, dict) else block
+    ck = (key, bk)
     if ck not in _PKG_CACHE:
         env = {'*': dict(BASE_ENV)}
         for scope, d in (env_extra or {}).items():
             env.setdefault(scope, {}).update(d)
-        _PKG_CACHE[ck] = loader.load('nautilus_sym_%s_%d' % (key, block),
-                                     env, block=block)
+        _PKG_CACHE[ck] = loader.load('nautilus_sym_%s_%d' % (
+            key, len(_PKG_CACHE)), env, block=block)
     return _PKG_CACHE[ck]
 
 
